@@ -118,7 +118,11 @@ func (p *Pool) register(id uint64, blob []byte) {
 }
 
 // IDOfBlob returns the id of a blob (0 = unknown bytes).
-func (p *Pool) IDOfBlob(b []byte) uint64 { p.mu.Lock(); defer p.mu.Unlock(); return p.byBlob[string(b)] }
+func (p *Pool) IDOfBlob(b []byte) uint64 {
+	p.mu.Lock()
+	defer p.mu.Unlock()
+	return p.byBlob[string(b)]
+}
 
 // IDOfHash returns the id of the blob with this sha256 (0 = unknown).
 func (p *Pool) IDOfHash(h [32]byte) uint64 { p.mu.Lock(); defer p.mu.Unlock(); return p.byHash[h] }
@@ -129,9 +133,15 @@ func (p *Pool) Key(id uint64) *KeyEnt {
 	}
 	return nil
 }
-// ReserveID hands out the next certificate blob id (plan time, deterministic).
-func (p *Pool) ReserveID() uint64 { p.mu.Lock(); defer p.mu.Unlock(); id := p.nextID; p.nextID++; return id }
 
+// ReserveID hands out the next certificate blob id (plan time, deterministic).
+func (p *Pool) ReserveID() uint64 {
+	p.mu.Lock()
+	defer p.mu.Unlock()
+	id := p.nextID
+	p.nextID++
+	return id
+}
 
 // NewCert issues a certificate over key k with the given validity fields and
 // KeyId text.
@@ -178,7 +188,28 @@ func GenKeyID(r *mrand.Rand) (text, kind string) {
 		return s
 	}
 	raw := func(k *keyid.KeyID) string { b, _ := json.Marshal(k); return string(b) }
-	switch r.Intn(16) {
+	switch r.Intn(18) {
+	case 16, 17: // near miss: a required field is missing but its quoted NAME still occurs in the text (as a value, a principal, a nested key)
+		var m map[string]json.RawMessage
+		json.Unmarshal([]byte(marshal(base())), &m)
+		fields := []string{"transID", "reqUser", "reqIP", "reqHost", "isFirefighter", "isHWKey", "isHeadless", "isNonce", "touchPolicy", "ver"}
+		f := fields[r.Intn(len(fields))]
+		delete(m, f)
+		q, _ := json.Marshal(f)
+		switch r.Intn(3) {
+		case 0:
+			if f == "reqUser" {
+				m["reqHost"] = q
+			} else {
+				m["reqUser"] = q
+			}
+		case 1:
+			m["prins"] = json.RawMessage("[" + string(q) + "]")
+		default:
+			m["extra"] = json.RawMessage("{" + string(q) + ":1}")
+		}
+		b, _ := json.Marshal(m)
+		return string(b), "near-missing-field-name-elsewhere"
 	case 0:
 		k := base()
 		return marshal(k), "ysshca-touch"
